@@ -371,8 +371,13 @@ func (c *Ctx) rulesC03(a *coreAnchors, la *LockAnalysis) {
 			continue
 		}
 		var sites []ssa.CallInstruction
-		sites = append(sites, c.sitesIn(f, funcKey(a.queueMutation))...)
-		sites = append(sites, c.sitesIn(f, funcKey(a.prependMut))...)
+		if f == a.prependMut {
+			sites = append(sites, c.sitesIn(f, funcKey(a.prependMut))...)
+		} else {
+			// direct sites, or the call of a private helper that queues (a common
+			// tail extracted from the entry points)
+			sites = c.queueSitesIn(f, a.queueMutation, a.prependMut)
+		}
 		if len(sites) == 0 {
 			continue
 		}
